@@ -47,14 +47,22 @@ CHECKS = {
  "C17": ("exploration", "runtime monitoring: differential testing of tlv8.Marshal against an independent reflect-based reference encoder, round-trip checking, decoder fuzzing under recover",
          "Boundary battery and random values of all 23 rtp message types and 26 synthetic structs covering every field kind; oracle: Unmarshal(Marshal(v)) == v, Marshal(v) == reference encoding, arbitrary bytes decode without panic; root-cause attribution by single-field isolation.",
          "trusted base: the reference encoder in monitors/c17/refenc.go (written from the stated conventions)", "DESIGN.md §5 C17"),
+ "C09": ("exploration", "runtime monitoring: value-fidelity differential over the whole constructor catalog through a real transport (set->GET /characteristics and /accessories, PUT->typed getter and callback), answer-shape oracle",
+         "Accessory databases built from all catalog constructors, from one accessory to a 150-accessory bridge (responses of hundreds of chunks and frames); values at bounds, non-rounding floats, hostile strings, tlv8 payloads to 5000 bytes; id lists of every length 1..60 with unknown, write-only and repeated ids; oracle: values equal after JSON/chunking/encryption, every id answered once in order with value or status, every entry of a 207 has a status.",
+         "trusted base: refctl HTTP/chunk/frame parsing, encoding/json; PUT to an unknown id must not be answered as if applied (weak reading)", "DESIGN.md §5 C09"),
+ "C11": ("exploration", "runtime monitoring: permission invariants over every catalog constructor and all 8 permission subsets x formats, in-process update API and HTTP PUT path, EVENT fences",
+         "No pw => value unchanged and no callback for ~57 hostile values; no pr => no value stored or revealed in JSON, GET, /accessories, EVENT; no ev => subscription answered with a status and a fenced local change delivers no EVENT; positive controls for ev/pw/pr characteristics.",
+         "trusted base: refctl; permissions read literally from Perms, not through hc's helpers", "DESIGN.md §5 C11"),
+ "C12": ("exploration", "runtime monitoring: type/range invariant checked after every update for hostile JSON-like value sequences over every catalog constructor and synthetic formats, in-process and through PUT",
+         "88 hostile values (numbers of all magnitudes and signs, numeric and non-finite strings, bools, null, arrays, objects, repeated composites, Go-native ints/uints/float32) x local / remote / get-callback updates, pairs and random sequences; oracle after every update: Go type of the stored value matches the format, integer formats in range, within declared min/max, typed getter returns, attribute database encodes.",
+         "panics are attributed by stack frames inside package characteristic; trusted base: refctl for the HTTP path", "DESIGN.md §5 C12"),
+ "C20": ("exploration", "runtime monitoring: restart histories on one storage against a model (own structure fingerprint), exhaustive setup-code enumeration, independent setup-URI decoder",
+         "Histories of 4..7 runs with value-only and 14 kinds of structural changes, pair / unpair / add-controller in between, in-process and child-process restarts; oracle: id, key pair and pairings stable, c# +1 iff the served database without values changed, c# == version file, sf == 1 iff no controller stored (re-checked after every pair/unpair without restart); ValidatePin on sampled (quick) / all 10^8 (thorough) codes and 20000 non-code strings; X-HM URI decoded independently for all categories x flags.",
+         "trusted base: refctl, VerifTXT hook (returns the live txt records)", "DESIGN.md §5 C20"),
 }
 NOT_YET = {
- "C09": "monitor not built yet in this commit (see DESIGN.md §5 C09)",
  "C10": "monitor not built yet in this commit (see DESIGN.md §5 C10)",
- "C11": "monitor not built yet in this commit (see DESIGN.md §5 C11)",
- "C12": "monitor not built yet in this commit (see DESIGN.md §5 C12)",
  "C13": "monitor not built yet in this commit (see DESIGN.md §5 C13)",
- "C20": "monitor not built yet in this commit (see DESIGN.md §5 C20)",
 }
 def main():
     checks = []
